@@ -105,11 +105,13 @@ def build_impl():
     with Lock("impl"):
         if os.path.exists(lib):
             return d
-        # drop older builds (disk is limited)
-        for old in glob.glob(os.path.join(BUILD, "impl", "*")):
-            shutil.rmtree(old, ignore_errors=True)
-        for old in glob.glob(os.path.join(BUILD, "drv", "*")):
-            shutil.rmtree(old, ignore_errors=True)
+        # drop older builds (disk is limited), but never one that a concurrent run may still use:
+        # keep the 6 most recent trees and anything younger than 45 minutes
+        for sub in ("impl", "drv"):
+            olds = sorted(glob.glob(os.path.join(BUILD, sub, "*")), key=lambda p: os.path.getmtime(p), reverse=True)
+            for old in olds[6:]:
+                if time.time() - os.path.getmtime(old) > 2700:
+                    shutil.rmtree(old, ignore_errors=True)
         os.makedirs(d, exist_ok=True)
         srcs = [s for s in sorted(glob.glob(os.path.join(REPO, "src", "*.c")))
                 if os.path.basename(s) not in EXCLUDE_SRC]
@@ -296,6 +298,15 @@ def coq_property(pid):
         dt = time.time() - t0
         # make sure everything the extraction needs is built even if a proof broke
         ok_x, out_x = coq_make(["Extract/Extract_%s.vo" % pid], keep_going=True)
+        # snapshot the extracted model while holding the lock (another run may regenerate it for another tree)
+        snap = os.path.join(BUILD, "extracted", pid, repo_hash())
+        shutil.rmtree(snap, ignore_errors=True)
+        if ok_x:
+            os.makedirs(snap, exist_ok=True)
+            for ext in ("ml", "mli"):
+                src_f = os.path.join(COQ, "%s_model.%s" % (pid.lower(), ext))
+                if os.path.exists(src_f):
+                    shutil.copy(src_f, snap)
     src = strip_coq_comments(open(prop).read())
     theorems = re.findall(r"^\s*Theorem\s+([\w']+)", src, re.M)
     res = {"theorems": theorems, "obligations": len(theorems), "discharged": 0, "broken": [],
@@ -380,8 +391,9 @@ def shrink_list(items, still_fails, max_steps=400):
 def build_ocaml_model(pid):
     """Build the OCaml driver around the extracted model of property pid. Returns exe path."""
     low = pid.lower()
-    ml = os.path.join(COQ, "%s_model.ml" % low)
-    mli = os.path.join(COQ, "%s_model.mli" % low)
+    snap = os.path.join(BUILD, "extracted", pid, repo_hash())
+    ml = os.path.join(snap, "%s_model.ml" % low)
+    mli = os.path.join(snap, "%s_model.mli" % low)
     if not os.path.exists(ml):
         raise BuildError("extracted model %s missing (Extract_%s.v did not compile)" % (ml, pid))
     hx = os.path.join(ROOT, "harness", "ocaml", "hx.ml")
